@@ -92,6 +92,30 @@ def c_placed(ctx, args):
     return None
 
 
+def c_single_through_gate(ctx, args):
+    """a named gate applied to ONE operator -- a Pauli with any phase, a monomial with any coefficient -- conjugates it by the textbook unitary and leaves the coefficient alone;
+    backward undoes it"""
+    nm, qs, N, a, c = args
+    NPm = impl('np')
+    U = cnot(qs[0], qs[1], N) if nm == 5 else place1(U1[nm], qs[0], N)
+    for form in ('pauli', 'mono'):
+        o = NPm.P(a)
+        coef = 1.0
+        if form == 'mono':
+            coef = complex(*c)
+            o = o.as_monomial().set_c(coef)
+        g = NPm.mk_gate([qs, [2, nm]])
+        g.forward(o)
+        got = complex(getattr(o, 'c', 1.0)) * D.op(*NPm.oP(o))
+        want = coef * (U @ D.op(*a) @ U.conj().T)
+        if not np.allclose(got, want):
+            return {'kind': 'oracle', 'where': 'np:named gate %d on %s applied to a single %s' % (nm, qs, form), 'observed': [NPm.oP(o), [complex(getattr(o, 'c', 1.0)).real, complex(getattr(o, 'c', 1.0)).imag]], 'expected': 'c U P U^dagger', 'tags': ['single', form]}
+        g.backward(o)
+        if NPm.oP(o) != [a[0], a[1] % 4] or abs(complex(getattr(o, 'c', 1.0)) - coef) > 1e-12:
+            return {'kind': 'oracle', 'where': 'np:named gate %d backward on a single %s does not restore it' % (nm, form), 'observed': NPm.oP(o), 'expected': a, 'tags': ['single', form]}
+    return None
+
+
 def c_C_group(ctx, args):
     """through the implementation: 24 pairwise different valid gates, closed under compose and inverse"""
     I = impl('np').OPS
@@ -192,7 +216,7 @@ def c_C_roundtrip(ctx, args):
     return None
 
 
-CHECKS = {'C_index': c_C_index, 'placed': c_placed, 'C_roundtrip': c_C_roundtrip, 'table_corr': c_table_corr, 'action': c_action, 'C_group': c_C_group, 'guards': c_guards, 'ctor_fresh': __import__('props.C17', fromlist=['c_ctor_fresh']).c_ctor_fresh}
+CHECKS = {'single': c_single_through_gate, 'C_index': c_C_index, 'placed': c_placed, 'C_roundtrip': c_C_roundtrip, 'table_corr': c_table_corr, 'action': c_action, 'C_group': c_C_group, 'guards': c_guards, 'ctor_fresh': __import__('props.C17', fromlist=['c_ctor_fresh']).c_ctor_fresh}
 
 
 def run(ctx):
@@ -223,6 +247,12 @@ def run(ctx):
                 do(ctx, 'C_roundtrip', [k, q, N, mode], nontrivial=('Cr', k, N, mode))
     ctx.res.exhaustive = True
     do(ctx, 'C_group', [], nontrivial='C_group')
+    for N in (1, 2, 3):
+        for nm in (0, 1, 2, 3, 4):
+            for q in range(N):
+                do(ctx, 'single', [nm, [q], N, gen.rpauli(rng, N), [rng.choice([-2.5, 0.5, 3]), rng.choice([0, 1.5, -4])]], nontrivial=('sg', nm, q, N))
+        for c_, t_ in itertools.permutations(range(N), 2):
+            do(ctx, 'single', [5, [c_, t_], N, gen.rpauli(rng, N), [rng.choice([-2.5, 0.5, 3]), rng.choice([0, 1.5, -4])]], nontrivial=('sg', 5, c_, t_, N))
     for idx in list(range(-30, 30)) + [39, 47, 48, 100, -100, 255, 256, 2 ** 31, 2 ** 40, -2 ** 40]:
         do(ctx, 'C_index', [idx], nontrivial=('ci', idx))
     # wrong COUNTS are rejected whatever the labels are -- repeated labels included (every tuple over three labels of every wrong length up to 4)
